@@ -78,7 +78,7 @@ var zooTypes = []interface{}{
 	zoo.Scalars{}, zoo.Small{}, zoo.Slices{}, zoo.Conts{}, zoo.Derived{}, zoo.CustomHolder{}, zoo.Custom{},
 	zoo.NamedMapHolder{}, zoo.Node{}, zoo.FNode{}, zoo.Ping{}, zoo.Pong{}, zoo.Wide{}, zoo.Five{},
 	zoo.HI{}, zoo.HI8{}, zoo.HI16{}, zoo.HI32{}, zoo.HI64{}, zoo.HU{}, zoo.HU8{}, zoo.HU16{}, zoo.HU32{}, zoo.HU64{},
-	zoo.HF32{}, zoo.HF64{}, zoo.HStr{}, zoo.HBin{}, zoo.HTime{}, zoo.HBool{},
+	zoo.HF32{}, zoo.HF64{}, zoo.HStr{}, zoo.HBin{}, zoo.HTime{}, zoo.HBool{}, zoo.HPTime{},
 }
 
 var topTypes = []interface{}{
@@ -244,6 +244,11 @@ func famC07(e *emitter, g *gen.G, thorough bool) {
 		e.emit(fmt.Sprintf("iflist/%d", i), []interface{}{int32(v), v, int16(v), uint32(v)})
 		e.emit(fmt.Sprintf("mapkv/%d", i), zoo.Conts{MI: map[int32]string{int32(v): "x"}, ML64: map[int64]int64{v: v, v >> 5: v >> 3}})
 		e.emit(fmt.Sprintf("topmap/%d", i), map[int32]int64{int32(v): v})
+		e.emit(fmt.Sprintf("umap/%d", i), &zoo.Conts{MU64: map[uint64]uint64{uint64(v): uint64(v), uint64(v) >> 3: uint64(v) + 1},
+			MI8: map[int8]uint16{int8(v): uint16(v)}})
+		e.emit(fmt.Sprintf("topumap/%d", i), map[uint64]uint32{uint64(v): uint32(v)})
+		e.emit(fmt.Sprintf("nested64/%d", i), [][]int64{{v, v + 1}, {v >> 1}})
+		e.emit(fmt.Sprintf("nestedu/%d", i), map[string][]uint64{"k": {uint64(v), uint64(v) - 1}})
 	}
 }
 
@@ -332,6 +337,18 @@ func famC09(e *emitter, g *gen.G, thorough bool) {
 			e.emit(fmt.Sprintf("binmap%d", n), map[string][]byte{"k": b, "e": {}})
 		}
 	}
+	for _, big := range []int{4097, 5000, 9000, 2049, 2100} {
+		bb := make([]byte, big)
+		g.R.Read(bb)
+		s1, s2 := []byte{1, 2, 3, 4, 5, 6, 7, 8}, []byte{9, 10, 11, 12, 13}
+		e.emit(fmt.Sprintf("binseq%d/list", big), []interface{}{bb, s1, s2, s1})
+		e.emit(fmt.Sprintf("binseq%d/list2", big), []interface{}{s1, bb, s2, s1, bb[:10]})
+		e.emit(fmt.Sprintf("binseq%d/typed", big), [][]byte{bb, s1, s2})
+		e.emit(fmt.Sprintf("binseq%d/map", big), map[string][]byte{"a": bb, "b": s1, "c": s2})
+		ls := g.String(big, -1)
+		e.emit(fmt.Sprintf("strseq%d/list", big), []interface{}{ls, "short-1", "other-22", string([]rune(ls)[:5])})
+		e.emit(fmt.Sprintf("strseq%d/typed", big), []string{"a", ls, "bcd", "efgh"})
+	}
 	nbig := 1
 	if thorough {
 		nbig = 10
@@ -377,6 +394,9 @@ func famC10(e *emitter, g *gen.G, thorough bool) {
 			e.emit(fmt.Sprintf("list/%d", i), []time.Time{t, t.Add(time.Hour)})
 			e.emit(fmt.Sprintf("scalars/%d", i), &zoo.Scalars{T: t, S: "s"})
 			e.emit(fmt.Sprintf("slicefield/%d", i), zoo.Slices{Ts: []time.Time{t}})
+			t1, t2 := t, t.Add(time.Second)
+			e.emit(fmt.Sprintf("ptrfield/%d", i), &zoo.HPTime{P: &t1, Q: &t2})
+			e.emit(fmt.Sprintf("ptrshared/%d", i), zoo.HPTime{P: &t1, Q: &t1})
 		}
 	}
 }
@@ -439,6 +459,8 @@ func famC04(e *emitter, g *gen.G, thorough bool) {
 		func(n *zoo.FNode) { n.FL = []int32{} },
 		func(n *zoo.FNode) { n.FL = []int32{7, 8} },
 		func(n *zoo.FNode) { n.FP = &zoo.Small{Name: "p"} },
+		func(n *zoo.FNode) { t := time.Unix(1500000001, 0); n.PT = &t },
+		func(n *zoo.FNode) { t := time.Unix(1500000002, 3000000); n.PT = &t; n.FT = t },
 		func(n *zoo.FNode) {
 			n.FT = time.Unix(1, 0)
 			n.FM = map[string]int32{}
@@ -580,7 +602,7 @@ func famC04(e *emitter, g *gen.G, thorough bool) {
 // ---- C06: streams ----------------------------------------------------------
 
 func famC06(e *emitter, g *gen.G, thorough bool) {
-	ns := 70
+	ns := 100
 	if thorough {
 		ns = 2500
 	}
@@ -638,8 +660,9 @@ func famC06(e *emitter, g *gen.G, thorough bool) {
 			}
 		}
 		vs := vals
-		e.emitEv(fmt.Sprintf("enc/%d/n%d", i, n), func() proj.M { return drv.Stream("enc", vs) })
-		e.emitEv(fmt.Sprintf("ser/%d/n%d", i, n), func() proj.M { return drv.Stream("ser", vs) })
+		gc := i%3 == 1 // a collection after every write: what the encoder remembers must stay alive
+		e.emitEv(fmt.Sprintf("enc/%d/n%d", i, n), func() proj.M { return drv.Stream("enc", vs, gc) })
+		e.emitEv(fmt.Sprintf("ser/%d/n%d", i, n), func() proj.M { return drv.Stream("ser", vs, gc) })
 	}
 }
 
@@ -750,6 +773,20 @@ func famC13(e *emitter, g *gen.G, thorough bool) {
 					e.emit(fmt.Sprintf("typedouter%d@%d/%s", n, pos, nm), [][]interface{}{{int32(1)}, l})
 				}
 			}
+			for _, n := range []int{8, 9, 31, 32, 33, 40, 300, 1030} {
+				for _, pos := range []int{0, n / 2, n - 1} {
+					l := make([]interface{}, n)
+					for i := range l {
+						l[i] = int32(i)
+					}
+					l[pos] = mk()
+					e.emit(fmt.Sprintf("longlist%d@%d/%s", n, pos, nm), l)
+					if nm == "chan" || nm == "complex128" {
+						e.emit(fmt.Sprintf("longinlist%d@%d/%s", n, pos, nm), zoo.BadInList{L: l})
+						e.emit(fmt.Sprintf("longmapval%d@%d/%s", n, pos, nm), map[string]interface{}{"k": l})
+					}
+				}
+			}
 			e.emit("mapval/"+nm, map[string]interface{}{"a": int32(1), "b": mk(), "c": "z"})
 			e.emit("mapval1/"+nm, map[string]interface{}{"b": mk()})
 			e.emit("inmap/"+nm, &zoo.BadInMap{M: map[string]interface{}{"k": mk()}})
@@ -771,6 +808,9 @@ func famC13(e *emitter, g *gen.G, thorough bool) {
 		e.emit("control/list", []interface{}{int32(1), "a", zoo.Small{Name: "s"}})
 		e.emit("control/map", map[string]interface{}{"a": int32(1), "c": "z"})
 		e.emit("control/inlist", zoo.BadInList{L: []interface{}{int32(1), int64(2)}})
+		e.emit("control/longlist", make([]interface{}, 40))
+		e.emit("typedbad/chan40", make([]chan int, 40))
+		e.emit("typedbad/cplx33", make([]complex128, 33))
 	}
 }
 
